@@ -26,7 +26,7 @@ ASSUMPTIONS = [
 RULE = ('all lists of 0..N awaitables (N=4 quick, 5 thorough), each returning or raising one of '
         '{Base(Exception), Sub(Base), Other(Exception), BOnly(BaseException), CancelledError} after a delay; delays are '
         'a permutation-inducing assignment (every finishing permutation of every outcome list up to N=3, '
-        'random permutations beyond), given as coroutines, tasks or futures; `only` over the seven classes and four tuples of classes (the empty tuple included), `aws` as a list or a one-shot generator; '
+        'random permutations beyond), given as coroutines, tasks or futures; `only` over the eight classes (a subclass of CancelledError included) and four tuples of classes (the empty tuple included), `aws` as a list or a one-shot generator; '
         'run under a virtual clock; distinct = distinct (outcomes, delays, only, kinds) with >= 2 awaitables')
 
 
@@ -50,8 +50,12 @@ class BOnly(BaseException):
     pass
 
 
-CLASSES = [BaseException, Exception, Base, Sub, Other, BOnly, asyncio.CancelledError]
-RAISABLE = [2, 3, 4, 5, 6]       # class ids an awaitable may raise (6: it ends cancelled, e.g. an awaited task that
+class Shutdown(asyncio.CancelledError):
+    """an application's own cancellation-like error"""
+
+
+CLASSES = [BaseException, Exception, Base, Sub, Other, BOnly, asyncio.CancelledError, Shutdown]
+RAISABLE = [2, 3, 4, 5, 6, 7]       # class ids an awaitable may raise (6: it ends cancelled, e.g. an awaited task that
                                  # its owner cancelled - for gather(return_exceptions=True) one more failure)
 # what `only` may be: one of the classes, or a tuple of classes (isinstance accepts both), the empty tuple included
 ONLY = CLASSES + [(Base, BOnly), (Other, asyncio.CancelledError), (Sub, Exception), ()]
@@ -140,7 +144,7 @@ def spec(case):
 def norm(l):
     """gather() reports a cancelled child with a CancelledError of its own making, so the instance does not carry the
     index the harness attached: entries of that class are compared by class and position only."""
-    return [((-1 if c == 6 else i), c) for i, c in l]
+    return [((-1 if c in (6, 7) else i), c) for i, c in l]
 
 
 def norm1(t):
